@@ -33,6 +33,7 @@ type c19Case struct {
 	Handler   bool
 	Path      bool
 	BeforeErr string // "" | name of the operation whose before-request call fails
+	FirstInit int    // 0 = the handshake succeeds at once; else the HTTP status with which the server refuses the first initialize (no session id issued), after which the client initializes again
 }
 
 func c19Cases(tier string) []c19Case {
@@ -41,6 +42,13 @@ func c19Cases(tier string) []c19Case {
 		for mask := 0; mask < 16; mask++ {
 			c := c19Case{Client: cl, Static: mask&1 != 0, Before: mask&2 != 0, Handler: mask&4 != 0, Path: mask&8 != 0}
 			out = append(out, c)
+			if cl != "ls" && (mask == 0 || mask == 15) {
+				for _, st := range []int{503, 400} {
+					c3 := c
+					c3.FirstInit = st
+					out = append(out, c3)
+				}
+			}
 			if c.Before {
 				for _, op := range []string{"init", "listtools", "rootschanged", "terminate"} {
 					c2 := c
@@ -55,7 +63,7 @@ func c19Cases(tier string) []c19Case {
 
 func c19Eval(tier string, i int) CaseResult {
 	cs := c19Cases(tier)[i]
-	cr := CaseResult{Desc: fmt.Sprintf("client=%s static=%v before=%v handler=%v path=%v beforeErr=%q", cs.Client, cs.Static, cs.Before, cs.Handler, cs.Path, cs.BeforeErr), Nontrivial: true}
+	cr := CaseResult{Desc: fmt.Sprintf("client=%s static=%v before=%v handler=%v path=%v beforeErr=%q firstInit=%d", cs.Client, cs.Static, cs.Before, cs.Handler, cs.Path, cs.BeforeErr, cs.FirstInit), Nontrivial: true}
 	var viol []explore.Violation
 	obs := &hx.Log{}
 	k := func(s string) string { return fmt.Sprintf("%s:%s", s, cs.Client) }
@@ -65,6 +73,17 @@ func c19Eval(tier string, i int) CaseResult {
 		ss.onStream = func(w scriptWriter) {
 			if cs.Client == "ls" {
 				w.Raw("event: endpoint\ndata: /message?sessionId=s1\n\n")
+			}
+		}
+		if cs.FirstInit != 0 {
+			refused := false
+			ss.initHook = func(w scriptWriter, id string) bool {
+				if !refused {
+					refused = true
+					w.HTTP(cs.FirstInit, "text/plain", "try again")
+					return true
+				}
+				return false
 			}
 		}
 		opts := []mcp.ClientOption{mcp.WithClientGetSSEEnabled(true)}
@@ -138,6 +157,17 @@ func c19Eval(tier string, i int) CaseResult {
 			}
 			if err != nil {
 				viol = append(viol, V(k("op-fails:"+s.name), "%s failed: %v", s.name, err))
+			}
+		}
+		if cs.FirstInit != 0 {
+			// the first handshake is refused without a session id; the client then initializes again
+			var e1 error
+			d1 := &hx.Flag{}
+			vsched.Go("op-init-refused", func() { _, e1 = cl.Initialize(tok("init"), &mcp.InitializeRequest{}); d1.Set() })
+			vsched.Quiesce()
+			if !d1.Get() || e1 == nil {
+				viol = append(viol, V(k("first-init-not-refused"), "the server refused the first initialize with %d but Initialize returned %v (done=%v)", cs.FirstInit, e1, d1.Get()))
+				return
 			}
 		}
 		do(step{"init", func() error { _, e := cl.Initialize(tok("init"), &mcp.InitializeRequest{}); return e }})
@@ -244,8 +274,8 @@ func c19Eval(tier string, i int) CaseResult {
 				if issued && x.ReqHeader.Get("Mcp-Session-Id") != ss.sid {
 					viol = append(viol, V(k("session-id:"+kind), "%s does not carry the issued session id", where))
 				}
-				if strings.Contains(body, `"initialize"`) {
-					issued = true
+				if strings.Contains(body, `"initialize"`) && x.Status == 200 {
+					issued = true // the answer to this request issued the session id
 				}
 			}
 		}
@@ -253,6 +283,11 @@ func c19Eval(tier string, i int) CaseResult {
 			need := []string{"POST-initialize", "POST-initialized", "POST-request", "POST-notification", "POST-answer-to-server-request", "POST-error-answer-to-server-request", "GET-stream"}
 			if cs.Client != "ls" {
 				need = append(need, "DELETE")
+			}
+			if cs.FirstInit != 0 {
+				// a client whose first initialize was answered without a session id does not open a listening
+				// stream afterwards (it has switched its GET stream off): those kinds do not occur in this history
+				need = []string{"POST-initialize", "POST-initialized", "POST-request", "POST-notification", "DELETE"}
 			}
 			for _, n := range need {
 				if kinds[n] == 0 {
